@@ -11,7 +11,10 @@ PROP = dict(
                        "Comdex.C08.ltv_exact_tight", "Comdex.C08.interpool_borrow_respects_transit_ltv", "Comdex.C08.interpool_borrow_ltv_exact",
                        "Comdex.C08.borrow_respects_ltv_pledged",
                        "Comdex.C08.borrow_requires_pool_funds", "Comdex.C08.draw_requires_pool_funds",
-                       "Comdex.C08.withdraw_never_releases_pledged", "Comdex.C08.closeLend_never_releases_pledged"],
+                       "Comdex.C08.withdraw_never_releases_pledged", "Comdex.C08.closeLend_never_releases_pledged",
+                       "Comdex.C08.repay_split", "Comdex.C08.closeBorrow_split",
+                       "Comdex.C08.rejected_no_change", "Comdex.C08.killswitch_rejects_lend_ops", "Comdex.C08.killswitch_rejects_borrow_ops",
+                       "Comdex.C08.guards_reject_new_positions", "Comdex.C08.guards_reject_borrow", "Comdex.C08.depreciation_rejects"],
     harness_tests=["TestC08"],
     monitors=["total_lend", "total_lend_orphaned", "total_borrowed", "total_stable", "ltv", "ltv_exact", "pool_funds", "pledged_safe"],
     trusted_base=[KERNEL_TB, HARNESS_TB, DEC_TB,
@@ -23,7 +26,7 @@ PROP = dict(
                   "bank module (x/bank), protobuf (de)serialisation and the KV store are exercised, not modelled; the model's bank is an association list",
                   "the liquidation DECISION (which borrow is handed over, C09) and the auction that follows are not modelled: only the effect of "
                   "UpdateLockedBorrows on the lending books"],
-    assumptions=["ESM kill switch off, no pool depreciated (the harness never enables them; both are guards in front of every handler)",
+    assumptions=[
                  "amounts below 2^63 and Dec values below the 315-bit overflow limit (harness amounts are below 10^14)",
                  "static configuration (assets, rates params, pools, pairs) over a history; oracle prices may change between messages",
                  "denominations are in one-to-one correspondence with asset ids"],
